@@ -1132,9 +1132,31 @@ var ruleLineTerminators = &Rule{
 			if f == nil {
 				return out
 			}
+			// the function, its closures, and the private helpers of its package it calls (a line-end test may be
+			// extracted into one)
 			var fns []*ssa.Function
-			fns = append(fns, f)
-			fns = append(fns, f.AnonFuncs...)
+			seenFn := map[*ssa.Function]bool{}
+			var collect func(g *ssa.Function, d int)
+			collect = func(g *ssa.Function, d int) {
+				if g == nil || seenFn[g] || d > 2 || g.Blocks == nil {
+					return
+				}
+				seenFn[g] = true
+				fns = append(fns, g)
+				for _, a := range g.AnonFuncs {
+					collect(a, d)
+				}
+				for _, b := range g.Blocks {
+					for _, ins := range b.Instrs {
+						if call, ok := ins.(*ssa.Call); ok {
+							if h := call.Call.StaticCallee(); h != nil && h.Pkg != nil && f.Pkg != nil && h.Pkg == f.Pkg {
+								collect(h, d+1)
+							}
+						}
+					}
+				}
+			}
+			collect(f, 0)
 			for _, g := range fns {
 				for _, b := range g.Blocks {
 					for _, ins := range b.Instrs {
@@ -1404,6 +1426,141 @@ var ruleSymbolFilePairing = &Rule{
 			}
 		}
 		obs = append(obs, floor("LOC/symbol-file-pairing", "symbol entries with file and location + member loops", n, 3))
+		return obs
+	},
+}
+
+// SCOPE/S10: a for loop's control variables are not visible in the loop's own header.
+
+var ruleScopeS10 = &Rule{
+	Name:    "SCOPE/S10-loop-header",
+	NeedSSA: true,
+	Text: "the analysis functions that declare the control variables of a for statement (a function with an *ast.ForNumStat / *ast.ForInStat parameter that calls AddLocVar) " +
+		"store the range of the loop's header expressions into the variable (VarInfo.LoopHeadLoc), and VarInfo.IsCorrectPosition — the visibility test of every position-based " +
+		"lookup — tests the position against that range (IsContainLoc on LoopHeadLoc) before it can answer true: `for k, v in pairs(v) do` iterates over the OUTER v",
+	Run: func(c *Ctx) []Ob {
+		var obs []Ob
+		n := 0
+		for _, f := range c.ModFns() {
+			isFor := false
+			for _, p := range f.Params {
+				if _, nm := namedPkgName(p.Type()); nm == "ForNumStat" || nm == "ForInStat" {
+					isFor = true
+				}
+			}
+			if !isFor {
+				continue
+			}
+			adds := 0
+			stored := false
+			for _, b := range f.Blocks {
+				for _, ins := range b.Instrs {
+					if call, ok := ins.(*ssa.Call); ok {
+						if g := call.Call.StaticCallee(); g != nil && g.Name() == "AddLocVar" {
+							adds++
+						}
+					}
+					if st, ok := ins.(*ssa.Store); ok {
+						if fa, ok := st.Addr.(*ssa.FieldAddr); ok && fieldName(fa.X.Type(), fa.Field) == "LoopHeadLoc" {
+							if _, nm := namedPkgName(fa.X.Type()); nm == "VarInfo" {
+								stored = true
+							}
+						}
+					}
+				}
+			}
+			if adds == 0 {
+				continue
+			}
+			n++
+			key := "SCOPE/S10:" + f.Name() + ":header-range"
+			if stored {
+				obs = append(obs, Ob{Key: key, Site: c.Pos(f.Pos()), Verdict: OK})
+			} else {
+				obs = append(obs, Ob{Key: key, Site: c.Pos(f.Pos()), Verdict: VIOLATION,
+					Note: f.Name() + " declares the control variables of a for loop without recording the loop's header range: position-based lookups see them inside the header expressions"})
+			}
+		}
+		icp := c.SSAFunc(commonPkg, "VarInfo", "IsCorrectPosition")
+		if icp == nil {
+			obs = append(obs, Ob{Key: "SCOPE/S10:IsCorrectPosition:slot", Verdict: UNDECIDED, Note: "slot unresolved"})
+		} else {
+			n++
+			isHeadTest := func(i ssa.Instruction) bool {
+				call, ok := i.(*ssa.Call)
+				if !ok {
+					return false
+				}
+				g := call.Call.StaticCallee()
+				if g == nil || g.Name() != "IsContainLoc" || len(call.Call.Args) == 0 {
+					return false
+				}
+				ld, ok := call.Call.Args[0].(*ssa.UnOp)
+				if !ok || ld.Op != token.MUL {
+					return false
+				}
+				fa, ok := ld.X.(*ssa.FieldAddr)
+				return ok && fieldName(fa.X.Type(), fa.Field) == "LoopHeadLoc"
+			}
+			isRetTrue := func(i ssa.Instruction) bool {
+				ret, ok := i.(*ssa.Return)
+				if !ok || len(ret.Results) != 1 {
+					return false
+				}
+				k, ok := retOperand(ret, 0).(*ssa.Const)
+				return ok && k.Value != nil && k.Value.Kind() == constant.Bool && constant.BoolVal(k.Value)
+			}
+			// every `return true` must be preceded, on every path, by the header test — unless the header range is unset
+			// (the IsInitialLoc test guards the call): accept "the function contains the test and no return true precedes it"
+			has := false
+			for _, b := range icp.Blocks {
+				for _, ins := range b.Instrs {
+					if isHeadTest(ins) {
+						has = true
+					}
+				}
+			}
+			early := mayFollow(icp, isRetTrue, isHeadTest) // a header test after a return true is impossible; used for symmetry
+			_ = early
+			bad := false
+			if has {
+				// no `return true` may be reachable from the entry without passing the block that decides whether to test
+				for _, b := range icp.Blocks {
+					for _, ins := range b.Instrs {
+						if !isRetTrue(ins) {
+							continue
+						}
+						ok := false
+						for _, hb := range icp.Blocks {
+							for _, hi := range hb.Instrs {
+								if isHeadTest(hi) {
+									// the block that guards the test (its predecessor with the IsInitialLoc branch) dominates the return
+									for _, p := range hb.Preds {
+										if p.Dominates(b) {
+											ok = true
+										}
+									}
+									if hb.Dominates(b) {
+										ok = true
+									}
+								}
+							}
+						}
+						if !ok {
+							bad = true
+						}
+					}
+				}
+			}
+			key := "SCOPE/S10:IsCorrectPosition:header-test"
+			if has && !bad {
+				obs = append(obs, Ob{Key: key, Site: c.Pos(icp.Pos()), Verdict: OK})
+			} else {
+				obs = append(obs, Ob{Key: key, Site: c.Pos(icp.Pos()), Verdict: VIOLATION,
+					Note: "IsCorrectPosition can answer true without having tested the position against the loop header of a for-loop variable"})
+			}
+		}
+		obs = append(obs, floor("SCOPE/S10-loop-header", "for-statement declarers + the visibility test", n, 3))
 		return obs
 	},
 }
